@@ -70,6 +70,10 @@ HISTORY = {
     "C20-3": ("missed (round 2)", "C09 sql-columns / C20 ttl-prune-at-build: surviving snapshots are written back verbatim (created_at as read)"),
     "C13-3": ("missed (round 2)", "C13 permissions/sidecars/named-after-file (Path::file_name, not file_stem)"),
     "C14-3": ("caught (round 2)", ""),
+    "C15-3": ("missed (round 2)", "C15 extension-wiring/presence/<field> (an optional field's presence depends on that wire field alone)"),
+    "C17-3": ("missed (round 2)", "C17 aead-siblings/imeta-values-verbatim"),
+    "C19-3": ("missed (round 2)", "C19 snapshot-one-instant counts acquisitions through callees and anchors on the function building the snapshot"),
+    "C19-4": ("caught by C20 only (round 2)", "C19 one-critical-section/manager/<fn> (a manager function takes the mutex once)"),
     "C19-2": ("caught by C09/C12 only", "C19 one-critical-section: only the group-existence pre-check is exempt on SQLite"),
 }
 rows = ["| id | change (needs) | first | now caught by | strengthened |", "|----|----------------|-------|---------------|--------------|"]
